@@ -28,6 +28,16 @@ func sessFix(k int) string {
 	}
 }
 
+// the two lists of festival names: the built-in one and one with two entries reworded
+func sessNames(v int) []string {
+	ns := append([]string{}, HolidayUtil.NAMES...)
+	if v == 1 {
+		ns[0] = ns[0] + "(改)"
+		ns[3] = "五一"
+	}
+	return ns
+}
+
 func sessLunar(t int) *calendar.Lunar {
 	i := sessInst[t-1]
 	s, _ := safeSolar(i[0], i[1], i[2], i[3], i[4], i[5])
@@ -79,15 +89,22 @@ func c09Sessions(c *ctx) {
 		chart = append(chart, ct)
 		solar = append(solar, st)
 	}
-	hol := [][]string{}
+	hol := [][][]string{}
 	for _, d := range sessDates {
-		row := []string{}
+		row := [][]string{}
 		for k := 0; k <= nFix; k++ {
-			HolidayUtil.VerifReset()
-			if k > 0 {
-				HolidayUtil.Fix(nil, sessFix(k))
+			byNames := []string{}
+			for v := 0; v <= 1; v++ {
+				HolidayUtil.VerifReset()
+				if v > 0 {
+					HolidayUtil.Fix(sessNames(v), "")
+				}
+				if k > 0 {
+					HolidayUtil.Fix(nil, sessFix(k))
+				}
+				byNames = append(byNames, holObs(d))
 			}
-			row = append(row, holObs(d))
+			row = append(row, byNames)
 		}
 		hol = append(hol, row)
 	}
@@ -118,6 +135,8 @@ func c09Sessions(c *ctx) {
 					hands[x-1].SetSect(y)
 				case "Fix":
 					HolidayUtil.Fix(nil, sessFix(x))
+				case "Rename":
+					HolidayUtil.Fix(sessNames(x), "")
 				case "Bad":
 					if x == 1 {
 						calendar.NewSolar(2023, 2, 30, 0, 0, 0)
